@@ -1,7 +1,8 @@
 # C08: marginal transformation returns p(y) = integral of p(y|x) p(x) dx
 from . import lin, common as C
 PROP = "C08"
-PROPS_FILE = "props/C08.v"
+PROPS_FILE = ["props/C08.v", "props/GI2.v"]
+TRUSTED_EXTRA = ["props/GI2.v (C08 / C09 / C11 as statements about iterated improper Riemann integrals, at Coq's real numbers: stdlib Reals + Coquelicot + base/RField.v) depends on the standard-library axioms ClassicalDedekindReals.sig_not_dec, sig_forall_dec, FunctionalExtensionality.functional_extensionality_dep, Classical_Prop.classic, Epsilon.epsilon_statement; the theorems of props/C08.v (every real field) stay closed under the global context"]
 RULE = ('cases = affine_marginal_transformation for every conditional class {full, diag, ident, identdiag, nn} x batch layout {(1,1),(1,n),(n,1)} x dimension regime plus seeded random shapes' "; rational parameters (small integers over denominators 1,2,4; SPD = B B' + d I, cond <= 1e3), random constructor "
         "argument combination; non-trivial = more than one scalar dimension/component involved; distinct = SHA1 of the input description")
 EXPLANATION = ("model affine_marginal (Cond.v) at Qc vs implementation; oracle: independent normal log-density of (M mu + b, Sigma_y + M Sigma_x M'), which is also the y-block of the exact joint moments")
